@@ -1,6 +1,7 @@
 package scen
 
 import (
+	"hash/crc32"
 	"crypto/ed25519"
 	"crypto/sha1"
 	"fmt"
@@ -100,3 +101,56 @@ func refMutableTarget(pub, salt []byte) [20]byte {
 }
 
 func refImmutableTarget(bv []byte) [20]byte { return sha1.Sum(bv) }
+
+// ---- BEP 42 reference (written from the specification; no import of dht's)
+
+var crc32cTable *crc32.Table = crc32.MakeTable(crc32.Castagnoli)
+
+func bep42Prefix(ip net.IP, r byte) (uint32, bool) {
+	var b []byte
+	if ip4 := ip.To4(); ip4 != nil {
+		m := []byte{0x03, 0x0f, 0x3f, 0xff}
+		b = make([]byte, 4)
+		for i := range b {
+			b[i] = ip4[i] & m[i]
+		}
+	} else if len(ip) == 16 {
+		m := []byte{0x01, 0x03, 0x07, 0x0f, 0x1f, 0x3f, 0x7f, 0xff}
+		b = make([]byte, 8)
+		for i := range b {
+			b[i] = ip[i] & m[i]
+		}
+	} else {
+		return 0, false
+	}
+	b[0] |= (r & 7) << 5
+	return crc32.Checksum(b, crc32cTable), true
+}
+
+// Bep42Secure rewrites the first 21 bits of id so that it is valid for ip.
+func Bep42Secure(id *[20]byte, ip net.IP) {
+	c, ok := bep42Prefix(ip, id[19])
+	if !ok {
+		return
+	}
+	id[0] = byte(c >> 24)
+	id[1] = byte(c >> 16)
+	id[2] = byte(c>>8)&0xf8 | id[2]&0x07
+}
+
+// Bep42Valid reports whether id is valid for ip under BEP 42 (local networks
+// are exempt).
+func Bep42Valid(id [20]byte, ip net.IP) bool {
+	if ip4 := ip.To4(); ip4 != nil {
+		if ip4[0] == 10 || (ip4[0] == 172 && ip4[1]&0xf0 == 16) || (ip4[0] == 192 && ip4[1] == 168) || (ip4[0] == 169 && ip4[1] == 254) || ip4[0] == 127 {
+			return true
+		}
+	} else if ip.IsLoopback() || ip.IsLinkLocalUnicast() {
+		return true
+	}
+	c, ok := bep42Prefix(ip, id[19])
+	if !ok {
+		return false
+	}
+	return id[0] == byte(c>>24) && id[1] == byte(c>>16) && id[2]&0xf8 == byte(c>>8)&0xf8
+}
